@@ -149,10 +149,13 @@ func clearCheckPoint(ctx context.Context) context.Context {
 
 func newCheckPointer(
 	inputPairs, outputPairs map[string]streamConvertPair,
+	parkedValuePairs map[string]map[string]streamConvertPair,
 	store CheckPointStore,
 ) *checkPointer {
+	sc := newStreamConverter(inputPairs, outputPairs)
+	sc.parkedValuePairs = parkedValuePairs
 	return &checkPointer{
-		sc:    newStreamConverter(inputPairs, outputPairs),
+		sc:    sc,
 		store: store,
 	}
 }
@@ -189,9 +192,10 @@ func (c *checkPointer) set(ctx context.Context, id string, cp *checkpoint) error
 
 // convertCheckPoint if value in checkpoint is streamReader, convert it to non-stream
 func (c *checkPointer) convertCheckPoint(cp *checkpoint, isStream bool) (err error) {
-	for _, ch := range cp.Channels {
+	for to, ch := range cp.Channels {
+		pairs := c.sc.channelPairs(to)
 		err = ch.convertValues(func(m map[string]any) error {
-			return c.sc.convertOutputs(isStream, m)
+			return convert(m, pairs, isStream)
 		})
 		if err != nil {
 			return err
@@ -208,9 +212,10 @@ func (c *checkPointer) convertCheckPoint(cp *checkpoint, isStream bool) (err err
 
 // convertCheckPoint convert values in checkpoint to streamReader if needed
 func (c *checkPointer) restoreCheckPoint(cp *checkpoint, isStream bool) (err error) {
-	for _, ch := range cp.Channels {
+	for to, ch := range cp.Channels {
+		pairs := c.sc.channelPairs(to)
 		err = ch.convertValues(func(m map[string]any) error {
-			return c.sc.restoreOutputs(isStream, m)
+			return restore(m, pairs, isStream)
 		})
 		if err != nil {
 			return err
@@ -234,6 +239,31 @@ func newStreamConverter(inputPairs, outputPairs map[string]streamConvertPair) *s
 
 type streamConverter struct {
 	inputPairs, outputPairs map[string]streamConvertPair
+	// from -> to -> pair for values that changed type on the edge (they are parked in channels behind the edge handlers)
+	parkedValuePairs map[string]map[string]streamConvertPair
+}
+
+// channelPairs returns, per predecessor, how the values parked in the channel of node `to` are converted:
+// with the predecessor's output type unless the handlers of that edge changed the type.
+func (s *streamConverter) channelPairs(to string) map[string]streamConvertPair {
+	var pairs map[string]streamConvertPair
+	for from, tos := range s.parkedValuePairs {
+		pair, ok := tos[to]
+		if !ok {
+			continue
+		}
+		if pairs == nil {
+			pairs = make(map[string]streamConvertPair, len(s.outputPairs))
+			for k, v := range s.outputPairs {
+				pairs[k] = v
+			}
+		}
+		pairs[from] = pair
+	}
+	if pairs == nil {
+		return s.outputPairs
+	}
+	return pairs
 }
 
 func (s *streamConverter) convertInputs(isStream bool, values map[string]any) error {
